@@ -10,6 +10,7 @@ sys.path.insert(0, os.path.join(os.path.dirname(os.path.abspath(__file__)), ".."
 from vlib import *
 from modcorpus import *
 import ext_layer            # extensibility layer (lib/ext_layer.py, notes/design/EXT.md)
+import setdef_layer         # SET / DEFAULT layer (lib/setdef_layer.py, notes/design/SetDef.md)
 
 
 def has_semi(tree):
@@ -180,6 +181,7 @@ def main(tier):
             if i < 3:
                 run.sample({"type": c["ts"], "value": c["vs"][:80], "der": c["der"][:80], "uper": c["uper"][:60], "oer": c["oer"][:60]})
     ext_layer.run_c02(run, rng, tier)
+    setdef_layer.run_c02(run, rng, tier)
     tb = ["Coq 8.16.1 kernel; vm_compute for refuted witnesses and Examples", "axioms under Print Assumptions: " + (", ".join(sorted(axioms)) or "none (Closed under the global context)"),
           "extraction: ExtrOcamlBasic only, per-area files; OCaml 4.13.1; zarith for I/O in drvlib.ml",
           "lib/modgen.py: generator and its own implementation of X.680 tagging (effective tags given to the model)",
